@@ -188,6 +188,17 @@ def check_result(c, d, T, op, status, tr, exc, res, total):
                 return
 
 
+HISTORY_OPS = ("replace_range", "replace_range_with", "delete_range")
+
+
+def neutral_first_step(c, tr):
+    """A first step that changes no position and no content: a document attribute, if the schema has one."""
+    top = c.model.types[c.model.top]
+    if not top.attrs:
+        raise ops.NotEnabled("no neutral first step")
+    tr.set_doc_attribute(list(top.attrs)[0], "earlier")
+
+
 def check_doc(c, sc, d, pools, res, total, node=None, groups=("replace", "lists"), with_replace_step=True):
     model = c.model
     if node is None:
@@ -209,6 +220,23 @@ def check_doc(c, sc, d, pools, res, total, node=None, groups=("replace", "lists"
             res.violate("c11.hang", {"schema": c.id, "doc": d, "op": op}, "watchdog", size=n)
             continue
         check_result(c, d, T, op, status, tr, exc, res, total)
+        if op["op"] in HISTORY_OPS and status in ("ok", "noop"):
+            # the same operation as the SECOND operation of a Transform whose first step left the content alone (a
+            # document-attribute step): it is judged by the same clauses, and "nothing was done" is only acceptable
+            # as "no fit exists" - not when the very same edit is performed on a fresh Transform
+            hcase = {"schema": c.id, "doc": d, "op": op, "after": "neutral first step"}
+            try:
+                st2, tr2, exc2 = ops.run_op(c, node, op, prep=lambda t: neutral_first_step(c, t))
+            except engine.Watchdog:
+                res.violate("c11.hang", hcase, "watchdog", size=n)
+                continue
+            if st2 == "n/a":
+                continue
+            res.transitions += 1
+            check_result(c, d, T, {**op, "after": "neutral first step"}, st2, tr2, exc2, res, total)
+            if status == "ok" and st2 == "noop":
+                res.violate("c11.noop-although-fit-exists", hcase, "nothing was done",
+                            jkey(tr.doc.content.to_json() or [])[:300], fingerprint="c11.noop-although-fit-exists:" + op["op"], size=n)
     if not with_replace_step:
         return
     # replace_step: returns a step that applies, or None
